@@ -32,7 +32,10 @@ def run_suite(driver, suite: Suite) -> dict:
     answers = driver.ask([c[0] for c in suite.cases])
     dis = []
     hist: Counter = Counter()
+    post = getattr(suite, "post_model", None)
     for (line, impl, branch), model in zip(suite.cases, answers):
+        if post:
+            model = post(model)
         hist[branch or impl.split(" ")[0]] += 1
         if impl != model:
             dis.append({"suite": suite.name, "request": line, "impl": impl, "model": model})
